@@ -85,6 +85,8 @@ type X struct {
 	step    int
 	caseSet map[string]bool
 	mu      sync.Mutex
+	// faultClass qualifies panic signatures with the kind of damage being applied (C14).
+	faultClass string
 }
 
 // Violate records a violation.
